@@ -33,7 +33,9 @@ mod kani_harnesses {
                 assert!(kind.is_some() && kind.unwrap().is_uppercase());
                 let rest = it.as_str();
                 assert!(!rest.is_empty());
-                // at most two digits fit in the bound: value below 100
+                // the number is a plain run of ASCII digits (no sign, no blanks) ...
+                assert!(rest.bytes().all(|b| b.is_ascii_digit()));
+                // ... and at most two digits fit in the bound: value below 100
                 assert!(n < 100);
             }
         }
